@@ -320,6 +320,28 @@ def main(argv=None):
         from sa import selftest
 
         st_rc, st_info = selftest.run_for(prop, a.root, jobs=a.j, verbose=False, want_info=True)
+    mm_info = None
+    if a.tier == "thorough" and not a.replay and not a.no_selftest:
+        # metamorphic sample: behaviour-preserving transformations of the tree under analysis at sites in the files the property is
+        # anchored in (tools/metamorph.py; compiled, not run); this check must not report a violation on any of them
+        try:
+            sys.path.insert(0, str(Path(__file__).resolve().parent.parent / "tools"))
+            import metamorph
+
+            files = []
+            for ln in (Path(__file__).resolve().parent.parent / "properties.jsonl").read_text().splitlines():
+                d_ = json.loads(ln)
+                if d_.get("id") == prop:
+                    files = [f_ for f_ in d_.get("anchors", {}).get("files", []) if f_.endswith(".py")]
+            mm_info = metamorph.sample_for(prop, a.root, n=48, seed=0, jobs=a.j or 8, files=files)
+        except Exception as e_:
+            mm_info = {"error": f"{type(e_).__name__}: {e_}"}
+        if st_info is not None:
+            st_info["metamorphic_sample"] = mm_info
+        if mm_info.get("false_alarms"):
+            for vid_, msg_ in mm_info["false_alarms"]:
+                print(f"selftest {prop} metamorphic {vid_}: FAIL — a VIOLATION on a behaviour-preserving transformation: {msg_}")
+            st_rc = 1
     rc = run_one(prop, a.tier, a.root, a.replay, write_ev, selftest_info=st_info)
     if st_rc != 0 and rc == 0:
         print(f"ANALYSIS-ERROR property={prop} CHECKER-UNSOUND: self-validation failed (see above)")
